@@ -63,6 +63,7 @@ func Verif_C02_tcp() {
 		copy(P[o+12:o+16], nat[0:4])
 		copy(P[o+20:o+22], nat[4:6])
 	}
+	N.Noise(src, d.ReceiveProbe)
 	src.Next = P
 	resp, err := d.ReceiveProbe(100 * time.Millisecond)
 	V.Assert(err == nil, "C02/accepted")
